@@ -1,4 +1,5 @@
 import RlibModel.Lemmas.Writer
+import RlibModel.Props.C09Bridge
 /-!
 # C09 — Writer delivers exactly the formatted bytes in order; round-trips with Reader
 
@@ -9,6 +10,10 @@ Property theorems only.  Model: `Model/Writer.lean` (buffer, `reserve` / `write_
 Everything is stated for an arbitrary configuration `c : Cfg` — both values of `c.dbg`
 (flush-per-write = debug build, buffered = optimised build), every `c.buf ≥ 39` — and an arbitrary
 start state with any fill level `s0.pend.size ≤ c.buf`.
+
+The last section ("Round trip through the Reader model") re-exports the theorems of
+`Props/C09Bridge.lean` (lemmas: `Lemmas/IoBridge.lean`), which join this model to the Reader model
+of C08 (`Model/Reader.lean`), so that they are audited as C09 obligations.
 -/
 namespace Rlib.C09
 open Rlib.Writer Rlib.Decimal
@@ -168,6 +173,93 @@ theorem roundtrip (c : Cfg) (hb : 39 ≤ c.buf) (ops : List Op) (hv : Op.validAl
   obtain ⟨s, e, t⟩ := fresh_writer_delivers c hb ops hv
   exact ⟨s, e, by rw [t]; exact tokenize_ops ops hs, opsLeaves_read_back ops hv⟩
 
+/-! ### Round trip through the Reader model (C08's model; proofs in `Props/C09Bridge.lean`)
+
+`roundtrip` above is stated against this engine's own spec tokenizer. The theorems below are about the
+*Reader model* of `Model/Reader.lean` — the definitions `drv_io` executes and C08's theorems are about — fed
+the sink bytes of the dropped writer by any source: `src` is any event list (data chunks and `Interrupted`
+errors) with `srcBytes src` = the sink text, `SrcOk src` = no empty data chunk (`Ok(0)` means end of input),
+`BUF` any reader buffer size ≥ 1, `fuel` any loop fuel above the number of bytes. -/
+
+/-- The Writer's decimal text of `v : t` — by the digit loop, as the calls of the `Writable` instance, and as
+    specification text — is `Reader.render v`, the byte string C08's `parse_render`/`read_rendered_int` invert. -/
+theorem render_agree (t : IntTy) (v : Int) (hv : (Writer.Val.int t v).valid = true) :
+    (if t.signed then renderS (base10len t.bits) v else renderU (base10len t.bits) v.toNat) = .ok (Reader.render v) ∧
+    decimalS v = Reader.render v ∧
+    specVal (.int t v) = (Reader.render v).toByteArray ∧
+    ∀ buf, 39 ≤ buf → piecesConcat (acts buf (.int t v)) = (Reader.render v).toByteArray :=
+  C09Bridge.render_agree t v hv
+
+/-- A reader whose remaining bytes are whitespace, the Writer's text of `v`, then whitespace or nothing,
+    returns `v` from `read::<t>()` — any delivery, any buffer size. -/
+theorem read_written_int (t : IntTy) (v : Int) (hv : (Writer.Val.int t v).valid = true)
+    (ws tail : List UInt8) (hws : ∀ c ∈ ws, Reader.isWs c = true)
+    (htail : tail = [] ∨ ∃ c r, tail = c :: r ∧ Reader.isWs c = true)
+    (BUF : Nat) (hB : 0 < BUF) (fuel : Nat) (s : Reader.RState) (hi : Reader.Inv BUF s)
+    (hf : (Reader.R s).length < fuel) (hR : Reader.R s = ws ++ txt (specVal (.int t v)) ++ tail) :
+    ∃ s', Reader.readInt t fuel s = .ok (v, s') ∧ Reader.R s' = tail ∧ Reader.Inv BUF s' :=
+  C09Bridge.read_written_int t v hv ws tail hws htail BUF hB fuel s hi hf hR
+
+/-- This file's spec tokenizer obeys the recursion of the Reader specification. -/
+theorem tokenizers_agree (bs : List UInt8) :
+    tokenize bs = if Reader.specSkipWs bs = [] then []
+      else (Reader.specString bs).1 :: tokenize (Reader.specString bs).2 :=
+  C09Bridge.tokenizers_agree bs
+
+/-- Write → drop → deliver anyhow → read (integers and words mixed): every leaf comes back from
+    `read::<its type>()`, in order, and then `is_eof()` is true. Same domain as `roundtrip`. -/
+theorem write_then_read (c : Cfg) (hb : 39 ≤ c.buf) (ops : List Op) (hv : Op.validAll ops = true)
+    (hs : sepOK ops = true) :
+    ∃ s, runOps c ops WState.init = .ok s ∧ (drop s).sink = specOps ops ∧
+      ∀ (src : List Reader.Event), Reader.SrcOk src → Reader.srcBytes src = txt (drop s).sink →
+      ∀ (BUF : Nat), 0 < BUF → ∀ (fuel : Nat), (Reader.srcBytes src).length < fuel →
+        Reader.runScript fuel ((opsLeaves ops).map IoBridge.readOf ++ [Reader.Op.eof]) (Reader.init BUF src)
+          = (opsLeaves ops).map IoBridge.expect ++ [.out (.bool true)] :=
+  C09Bridge.write_then_read c hb ops hv hs
+
+/-- … for scripts whose leaves are the integers `xs`: `read::<t₁>(), read::<t₂>(), …, is_eof()` returns
+    `v₁, v₂, …, true` (all 12 types, `MIN`/`MAX` included, both profiles, any `BUF_w ≥ 39`, `BUF_r ≥ 1`). -/
+theorem write_then_read_ints (c : Cfg) (hb : 39 ≤ c.buf) (ops : List Op) (hv : Op.validAll ops = true)
+    (hs : sepOK ops = true) (xs : List (IntTy × Int)) (hx : opsLeaves ops = xs.map C09Bridge.intLeaf) :
+    ∃ s, runOps c ops WState.init = .ok s ∧ (drop s).sink = specOps ops ∧
+      ∀ (src : List Reader.Event), Reader.SrcOk src → Reader.srcBytes src = txt (drop s).sink →
+      ∀ (BUF : Nat), 0 < BUF → ∀ (fuel : Nat), (Reader.srcBytes src).length < fuel →
+        Reader.runScript fuel (xs.map (fun p => Reader.Op.read (.int p.1)) ++ [Reader.Op.eof]) (Reader.init BUF src)
+          = xs.map (fun p => Reader.Res.out (.val (.int p.2))) ++ [.out (.bool true)] :=
+  C09Bridge.write_then_read_ints c hb ops hv hs xs hx
+
+/-- … for scripts whose leaves are ASCII words: `read::<String>()` returns each word. -/
+theorem write_then_read_words (c : Cfg) (hb : 39 ≤ c.buf) (ops : List Op) (hv : Op.validAll ops = true)
+    (hs : sepOK ops = true) (ws : List ByteArray) (hx : opsLeaves ops = ws.map Writer.Val.str) :
+    ∃ s, runOps c ops WState.init = .ok s ∧ (drop s).sink = specOps ops ∧
+      ∀ (src : List Reader.Event), Reader.SrcOk src → Reader.srcBytes src = txt (drop s).sink →
+      ∀ (BUF : Nat), 0 < BUF → ∀ (fuel : Nat), (Reader.srcBytes src).length < fuel →
+        Reader.runScript fuel (ws.map (fun _ => Reader.Op.read .str) ++ [Reader.Op.eof]) (Reader.init BUF src)
+          = ws.map (fun w => Reader.Res.out (.val (.str (txt w)))) ++ [.out (.bool true)] :=
+  C09Bridge.write_then_read_words c hb ops hv hs ws hx
+
+/-- Every list of rows of in-range integers, one `outln!` of a tuple / `Vec` per row: no further hypothesis. -/
+theorem write_rows_then_read_ints (c : Cfg) (hb : 39 ≤ c.buf) (tuple : Bool) (rows : List (List (IntTy × Int)))
+    (hfit : ∀ r ∈ rows, ∀ p ∈ r, (C09Bridge.intLeaf p).valid = true) :
+    ∃ s, runOps c (C09Bridge.rowsOps tuple rows) WState.init = .ok s ∧
+      ∀ (src : List Reader.Event), Reader.SrcOk src → Reader.srcBytes src = txt (drop s).sink →
+      ∀ (BUF : Nat), 0 < BUF → ∀ (fuel : Nat), (Reader.srcBytes src).length < fuel →
+        Reader.runScript fuel (rows.flatten.map (fun p => Reader.Op.read (.int p.1)) ++ [Reader.Op.eof])
+            (Reader.init BUF src)
+          = rows.flatten.map (fun p => Reader.Res.out (.val (.int p.2))) ++ [.out (.bool true)] :=
+  C09Bridge.write_rows_then_read_ints c hb tuple rows hfit
+
+/-- Lines written with `outln!(line)`: `read_line()` returns each verbatim, then `None`; `read_lines()` all. -/
+theorem write_lines_then_read (c : Cfg) (hb : 39 ≤ c.buf) (ls : List ByteArray)
+    (hok : ∀ l ∈ ls, IoBridge.LineOK (txt l)) :
+    ∃ s, runOps c (IoBridge.lineOps ls) WState.init = .ok s ∧ (drop s).sink = specOps (IoBridge.lineOps ls) ∧
+      ∀ (src : List Reader.Event), Reader.SrcOk src → Reader.srcBytes src = txt (drop s).sink →
+      ∀ (BUF : Nat), 0 < BUF → ∀ (fuel : Nat), (Reader.srcBytes src).length < fuel →
+        Reader.runScript fuel (ls.map (fun _ => Reader.Op.line) ++ [.line, .eof]) (Reader.init BUF src)
+          = ls.map (fun l => Reader.Res.out (.line (some (txt l)))) ++ [.out (.line none), .out (.bool true)] ∧
+        Reader.runScript fuel [.lines, .eof] (Reader.init BUF src) = [.out (.lines (ls.map txt)), .out (.bool true)] :=
+  C09Bridge.write_lines_then_read c hb ls hok
+
 /-! ### Non-vacuity: the hypotheses are met by concrete, non-trivial instances -/
 
 -- the loop at the boundary of each width
@@ -202,5 +294,19 @@ example : writeBytes ⟨39, false⟩ (List.replicate 40 65).toByteArray WState.i
   oversize_piece_panics _ _ _ (by decide)
 -- a string piece longer than the buffer is chunked, never a panic
 example : (Op.write (.str (List.replicate 100 65).toByteArray)).valid = true := by decide
+
+-- bridge (more in `Props/C09Bridge.lean`): `demoOps` written at `BUF = 39`, read back through the Reader model with a
+-- 1-byte buffer from a source that delivers one byte per read with an `Interrupted` before each
+example : ∃ s, runOps ⟨39, false⟩ demoOps WState.init = .ok s ∧
+    Reader.runScript ((txt (drop s).sink).length + 1) ((opsLeaves demoOps).map IoBridge.readOf ++ [Reader.Op.eof])
+      (Reader.init 1 (IoBridge.bytewise (txt (drop s).sink)))
+    = (opsLeaves demoOps).map IoBridge.expect ++ [.out (.bool true)] := by
+  obtain ⟨s, e, _, h⟩ := write_then_read ⟨39, false⟩ (by decide) demoOps (by decide) (by decide)
+  have hb := IoBridge.bytewise_spec (txt (drop s).sink)
+  exact ⟨s, e, h _ hb.2 hb.1 1 (by decide) _ (by rw [hb.1]; exact Nat.lt_succ_self _)⟩
+example : (opsLeaves demoOps).map IoBridge.expect =
+    [.out (.val (.int (2 ^ 128 - 1))), .out (.val (.int (-(2 ^ 127)))), .out (.val (.int (-128))),
+     .out (.val (.str "word".toUTF8.data.toList)), .out (.val (.int 65535)), .out (.val (.int 0)),
+     .out (.val (.int (-1))), .out (.val (.str "x".toUTF8.data.toList))] := by decide
 
 end Rlib.C09
